@@ -199,6 +199,8 @@ fn curated() -> Vec<Family> {
         ("[", "]"), ("[", "](u)"), ("![", "](u)"), ("![", "]"), ("[", "][]"), ("[", "][a]"), ("![", "][]"), ("![", "][a]"), ("[*", "*]"), ("*[", "]*"), ("[`a` ", "]"), ("![a", "]"), ("[![", "]]"), ("[a](", ")"), ("[[", "]]"), ("*a ", " b*"), ("**a ", " b**"), ("_a ", " b_"), ("*a **b ", " c** d*"),
         ("~~a ", " b~~"), ("||a ", " b||"), ("^a ", " b^"), ("<", ">"), ("<a href=\"", "\">"), ("`", "`"), ("$", "$"), ("$$", "$$"), ("(", ")"), ("\"", "\""), ("'", "'"),
         ("> ", ""), (">", ""), ("- ", ""), ("1. ", ""), ("> - ", ""), (">>> ", ""), ("[^", "]"), ("<!--", "-->"), ("<![CDATA[", "]]>"), ("<?", "?>"), ("&", ";"),
+        // n containers opened on one line, then n more lines (each of them walks the open containers)
+        ("- ", "\n"), ("1. ", "\n"), ("> ", "\n"), ("> - ", "\n"), ("- ", "\nb"), ("[^a]: ", "\n"),
     ] {
         v.push(f("nest", a, b));
         v.push(f("tree", a, b));
@@ -445,6 +447,104 @@ fn run_families(rep: &mut Report, fams: &[Family], optnames: &[&'static str], n1
 
 const OPTSETS: &[&str] = &["default", "gfm", "all"];
 
+/// The caps the property names, observed on the tree: table auto-completion (at most 500 000 cells that
+/// are not in the source, per table), list nesting (at most 100 levels), reference expansion (at most
+/// max(100 000, input) bytes of destination + title). `cap <which>` replays one of them.
+pub fn run_caps(rep: &mut Report, only: Option<&str>) {
+    use comrak::nodes::NodeValue;
+    let o = Opts::all_extensions().to_comrak();
+    let want = |w: &str| only.map_or(true, |x| x == w);
+    let count = |md: &str, pred: &dyn Fn(&NodeValue) -> bool| -> Result<(usize, usize, usize), String> {
+        catch_unwind(AssertUnwindSafe(|| {
+            let arena = Arena::new();
+            let root = parse_document(&arena, md, &o);
+            let n = root.descendants().filter(|x| pred(&x.data.borrow().value)).count();
+            let mut depth = 0usize;
+            let mut maxdepth = 0usize;
+            for e in root.traverse() {
+                match e {
+                    comrak::arena_tree::NodeEdge::Start(x) => {
+                        if matches!(x.data.borrow().value, NodeValue::List(_)) {
+                            depth += 1;
+                            maxdepth = maxdepth.max(depth);
+                        }
+                    }
+                    comrak::arena_tree::NodeEdge::End(x) => {
+                        if matches!(x.data.borrow().value, NodeValue::List(_)) {
+                            depth -= 1;
+                        }
+                    }
+                }
+            }
+            let mut h = Vec::new();
+            format_html(root, &o, &mut h).unwrap();
+            (n, maxdepth, h.len())
+        }))
+        .map_err(|e| e.downcast_ref::<String>().cloned().or_else(|| e.downcast_ref::<&str>().map(|x| x.to_string())).unwrap_or_else(|| "panic".to_string()))
+    };
+    if want("table") {
+        for (cols, rows) in [(1000usize, 800usize), (2000, 300)] {
+            let mut md = String::new();
+            md.push_str(&"|a".repeat(cols));
+            md.push_str("|\n");
+            md.push_str(&"|-".repeat(cols));
+            md.push_str("|\n");
+            for _ in 0..rows {
+                md.push_str("|x\n");
+            }
+            rep.s_evals += 1;
+            rep.count("cap-table");
+            match count(&md, &|v| matches!(v, NodeValue::TableCell)) {
+                Ok((cells, _, html)) => {
+                    let in_source = cols + rows;
+                    let bound = in_source + 500_000 + cols;
+                    let out_bound = OUT_A * md.len() as u64 + OUT_B + 500_000 * 12;
+                    if cells > bound || html as u64 > out_bound {
+                        rep.fail("cap", "table-auto-completion", format!("cap table {} {}", cols, rows), format!("a {}-column table with {} one-cell rows ({} bytes) has {} cells (bound: {} in the source + 500000 + one row) and {} bytes of HTML (bound {})", cols, rows, md.len(), cells, in_source, html, out_bound));
+                    }
+                }
+                Err(e) => rep.fail("cap", "table-auto-completion-panic", format!("cap table {} {}", cols, rows), e),
+            }
+        }
+    }
+    if want("nesting") {
+        for (marker, n) in [("- ", 400usize), ("1. ", 400), ("- ", 3000), ("> - ", 300), ("+ ", 150)] {
+            let md = format!("{}x\n", marker.repeat(n));
+            rep.s_evals += 1;
+            rep.count("cap-nesting");
+            match count(&md, &|_| false) {
+                Ok((_, depth, _)) => {
+                    if depth > 100 {
+                        rep.fail("cap", "list-nesting", format!("cap nesting {} {}", hex(marker.as_bytes()), n), format!("{} list markers {:?} on one line open {} nested lists (cap: 100)", n, marker, depth));
+                    }
+                }
+                Err(e) => rep.fail("cap", "list-nesting-panic", format!("cap nesting {} {}", hex(marker.as_bytes()), n), e),
+            }
+        }
+    }
+    if want("references") {
+        for (url_len, uses) in [(1000usize, 600usize), (5000, 300)] {
+            let url = format!("/{}", "a".repeat(url_len));
+            let mut md = format!("[a]: {}\n\n", url);
+            for _ in 0..uses {
+                md.push_str("[a] ");
+            }
+            md.push('\n');
+            rep.s_evals += 1;
+            rep.count("cap-references");
+            match count(&md, &|v| matches!(v, NodeValue::Link(_))) {
+                Ok((links, _, _)) => {
+                    let budget = md.len().max(100_000);
+                    if links * url.len() > budget + url.len() {
+                        rep.fail("cap", "reference-expansion", format!("cap references {} {}", url_len, uses), format!("{} uses of a {}-byte destination resolved: {} bytes of expansion for {} bytes of input (cap: max(100000, input))", links, url.len(), links * url.len(), md.len()));
+                    }
+                }
+                Err(e) => rep.fail("cap", "reference-expansion-panic", format!("cap references {} {}", url_len, uses), e),
+            }
+        }
+    }
+}
+
 pub fn run(cfg: &Cfg, rep: &mut Report) {
     rep.rule = "S: for every fragment up to length 3 (quick) / 4 (thorough) over the alphabet *_`[]()<>!&\\|~^$:-#=+@./\"' LF a 1 (fragments of only a/1/space skipped) the families a.f^n, (f LF)^n and f^n.a.mirror(f)^n, plus ~150 curated shapes as nest/tree/repeat/lines/paragraph families; each measured at two sizes n (2^11, 2^12 quick; up to 2^16, 2^17 thorough; length-3/4 fragments screened at smaller n and re-measured at the large sizes when the slope exceeds 1.1) under default, GFM and all-extensions options; per measurement: 12 deterministic step counters (hook comrak::verif::steps) over parse + HTML + CommonMark + XML, output lengths, wall clock in an isolated worker. Oracle: log-log slope of total steps <= 1.25 (+0.10 tolerance), output <= 160 n + 4096. K (equality of step counts, exhaustive short + random texts): backtick-scan == Lean btStepsPos on one-paragraph texts over {a, `}; dollar-scan == Lean dlSteps (the code as it is since /repo commits 657287d and b4925f3, with its no-closer memos) on texts over {$, `, a, \\} with math_code and over {$, `, a, \\, space, 1} with math_dollars (with and without math_code); emphasis-opener-search == Lean emSteps true (the code as it is since /repo commits 9704a60 and e31def4) on texts over {*, _, a, space} and, with strikethrough on, over {*, _, ~, a, space}; proved bounds (3n backticks; 3n code-dollar, 5n math-dollar; 44 n + chars for process_emphasis) re-checked on every text.".into();
     if std::env::var("CVH_C06_ICOUNT_ONLY").is_ok() {
@@ -458,6 +558,7 @@ pub fn run(cfg: &Cfg, rep: &mut Report) {
     if std::env::var("CVH_C06_KONLY").is_ok() {
         return;
     }
+    run_caps(rep, None);
     let (big1, big2) = if cfg.tier_thorough { (1usize << 16, 1usize << 17) } else { (1usize << 11, 1usize << 12) };
     let (scr1, scr2) = if cfg.tier_thorough { (1usize << 11, 1usize << 12) } else { (1usize << 9, 1usize << 10) };
     let passing = |fams: &[Family], slopes: &[(usize, &'static str, f64)], lo: f64| -> Vec<Family> {
@@ -1076,6 +1177,10 @@ pub fn replay(kind: &str, input: &str) -> Result<Option<String>, String> {
             let tilde = toks.get(2).map_or(false, |x| *x == "1");
             k_em(&mut bt, &mut rep, t[1.min(t.len())..].to_vec(), tilde);
             bt.run(&m, &mut rep);
+        }
+        Some(&"cap") if toks.len() >= 2 => {
+            let which: &'static str = ["table", "nesting", "references"].iter().find(|w| **w == toks[1]).copied().ok_or("bad cap")?;
+            run_caps(&mut rep, Some(which));
         }
         _ => return Err("bad replay input (want: pair <optset> <shape> <hex frag> <hex close> <n1> <n2> | bt <hex> | em <hex> | cd <hex>)".into()),
     }
